@@ -351,6 +351,15 @@ MANIFEST_TEXT.update({
                "DESIGN.md §6 C20", "Lean 4 BitVec theorems over an expression regenerated from the Go AST + loop model with differential correspondence"),
 })
 
+# interleaving theorems over hand-written abstract actors, tied to the source by syntactic facts (Gen/Facts.lean)
+_FACTS_TB = ("interleaving theorems (%s): the actors (timer callback, request handler, teardown, writers) are hand-written abstractions of goroutines that meet at one mutex; "
+             "their proviso is a Boolean fact that /verif/xlate reads off the Go AST on every run (statement order inside the named functions) - the translator is trusted for that reading, "
+             "the Go scheduler, sync.Mutex and time.Timer (atomicity of Stop/Reset verdicts) are assumed, not modelled")
+for _pid, _mods in (("C06", "C06Timer, C06Reuse"), ("C07", "C07Timer"), ("C13", "C13Perm"), ("C15", "C15Attach"), ("C16", "C16Timer")):
+    PROPS[_pid] = dict(PROPS[_pid])
+    PROPS[_pid]["trusted_base"] = list(PROPS[_pid]["trusted_base"]) + [_FACTS_TB % _mods]
+    PROPS[_pid]["gen"] = True
+
 # properties whose check is not built yet (kept current; emptied as checks land)
 MANIFEST_TEXT["C14"] = _mt(
     "alloc_never_dies, bindings_never_expire, nothing_expires (allocation, every binding and every permission unexpired after ANY run), data_keeps_flowing (a probe written to any peer is relayed and a probe from any peer is delivered, after ANY run): on the composed model of the client's refresh drivers (periodic timers, <= 3 attempts, retransmission clock of M5) and the server's expiry timers and "
